@@ -40,8 +40,8 @@ Unspellable == <<-2>>
 Prep(P, K) == [k \in 1..Len(P) |-> IF Pruned(P, K, k) THEN Unspellable ELSE P[k]]
 PrepK(K) == IF K = "lf" THEN "ll" ELSE K
 
-IsNode(P, K, t) == \E k \in Inserted(P, K) : IsPrefixOf(t, P[k])
-Nodes(P, K) == UNION {{SubSeq(P[k], 1, n) : n \in 0..Len(P[k])} : k \in Inserted(P, K)}
+IsNode(P, K, t) == t = Root \/ \E k \in Inserted(P, K) : IsPrefixOf(t, P[k])
+Nodes(P, K) == {Root} \cup UNION {{SubSeq(P[k], 1, n) : n \in 0..Len(P[k])} : k \in Inserted(P, K)}
 
 (* patterns that end exactly at node t, in the order add_match appended them *)
 Own(P, K, t) == {k \in Inserted(P, K) : P[k] = t}
